@@ -561,8 +561,11 @@ impl<C: ContentAddrStore> SealedState<C> {
             .keys()
             .map(|k| self.0.stakes.votes(my_epoch, *k))
             .sum();
-        // strictly more than two thirds of the voting power active in this epoch must have signed
-        if present_votes.saturating_mul(3) > total_votes.saturating_mul(2) {
+        // strictly more than two thirds of the voting power active in this epoch must have signed: 3 * present > 2 * total,
+        // written as present > 2 * (total - present) so that it stays exact where the products no longer fit 128 bits
+        // (saturating both sides made a unanimous proof fail from a total of 2^127 on)
+        let absent_votes = total_votes.saturating_sub(present_votes);
+        if present_votes > absent_votes.saturating_mul(2) {
             Some(ConfirmedState {
                 state: self.clone(),
                 cproof,
